@@ -9,7 +9,7 @@ META = dict(
                  "the role of `ids` for 3-qubit gates is accepted in either of its two readings (they differ for the two 3-cycles only)"],
     explanation=("Bounded stand-in: the catalogue dispatchers build function names with eval() over name lists, out of reach of the VC generators; the catalogues are finite, "
                  "so the contract of every dispatcher is evaluated on the real code for every listed name (2-qutrit gates sampled). Nothing here is counted as proved."),
-    not_decided=["2-qutrit two-base-matrix gate names outside the sample", "legacy named constructors (get_x, get_cnot, get_x0_1q, ...) and tester_typical"],
+    not_decided=["2-qutrit two-base-matrix gate names outside the sample"],
 )
 
 GROUPS = ["1qubit", "2qubit", "3qubit", "1qutrit", "2qutrit"]
@@ -35,11 +35,13 @@ def jobs(tier, seed):
     js.append(Job("C17/actions", "contracts.C17:_run", dict(fn="job_actions", seed=seed)))
     js.append(Job("C17/mprocess", "contracts.C17:_run", dict(fn="job_mprocess", seed=seed)))
     js.append(Job("C17/ensembles", "contracts.C17:_run", dict(fn="job_ensembles", seed=seed)))
+    js.append(Job("C17/legacy", "contracts.C17:_run", dict(fn="job_legacy", seed=seed)))
+    js.append(Job("C17/testers", "contracts.C17:_run", dict(fn="job_testers", seed=seed)))
     js.append(Job("C17/canary", "contracts.C17:_run", dict(fn="job_canary", seed=seed)))
     return js
 
 
 CLAIM = {'engine': 'E0-enumeration (runtime contracts on the real code)', 'level': 'other',
- 'text': 'BOUNDED STAND-IN, nothing counted as proved. The contracts of the catalogue dispatchers are evaluated natively on the real code for every listed name: all state names (1-3 qubits, 1-2 qutrits: 1066 names), all POVM names (345), all measurement-process names (13 single, 52 products), all state-ensemble names, all 1-/2-/3-qubit and 1-qutrit gate names with every qubit-id permutation, identity gates, and a sample of the 2-qutrit gates. Clauses: the object can be generated and is physical; pure vector / density matrix / coefficient vector / object agree; unitary / HS matrix / Hamiltonian exponential / Lindbladian exponential / object agree; Kraus sets are complete and give the HS matrices; every object_name form agrees; product names are Kronecker products; unitaries equal independent textbook definitions up to a global phase; 33 textbook (gate, state, state) actions; names outside the catalogue raise.',
+ 'text': 'BOUNDED STAND-IN, nothing counted as proved. The contracts of the catalogue dispatchers are evaluated natively on the real code for every listed name: all state names (1-3 qubits, 1-2 qutrits: 1066 names), all POVM names (345), all measurement-process names (13 single, 52 products), all state-ensemble names, all 1-/2-/3-qubit and 1-qutrit gate names with every qubit-id permutation, identity gates, and a sample of the 2-qutrit gates. Clauses: the object can be generated and is physical; pure vector / density matrix / coefficient vector / object agree; unitary / HS matrix / Hamiltonian exponential / Lindbladian exponential / object agree; Kraus sets are complete and give the HS matrices; every object_name form agrees; product names are Kronecker products; unitaries equal independent textbook definitions up to a global phase; 33 textbook (gate, state, state) actions; names outside the catalogue raise; the legacy named constructors (gate.get_*, state.get_*_1q, povm.get_*_povm) agree with the textbook / catalogue objects; tester helpers and generate_composite_system give what their arguments name.',
  'note': 'Level other: exhaustive evaluation over a finite domain with floats, tolerance 1e-9; the dispatchers use eval() on constructed names, which the VC generators do not follow, and there is no symbolic input to quantify over. 2-qutrit gates (about 39k names, seconds each) are sampled in both tiers (32 quick, 798 thorough). One genuine defect found and fixed (state-ensemble catalogue listed names without a generator). Observation: for 3-qubit gates the documented role of ids ("ids[2] is for target") and the behaviour differ for the two cyclic permutations; the library\'s own interface tests pin the behaviour, so both readings are accepted.',
  'technique': 'runtime contracts evaluated by complete enumeration of the finite catalogues (bounded stand-in for contract-based deductive verification)'}
